@@ -36,4 +36,30 @@ macro_rules! corpus {
     };
 }
 
-corpus!(g1, g2, g3, p1, p2, p3, p4, p5, c1, c2, c3, v1, v2, v3, o1, o2, a1, a2, a3, e1, j1, k1, k2, h1, h2, kc, k3, k4, c4, g4, o3, a4);
+/// dynamic probe used to confirm tokenizer counterexamples through the public API:
+/// `probe:short:<hex utf8 of one char>` / `probe:long:<hex utf8 name>` build
+/// `NAME.argument::<OsString>("V").many()`, `NAME.req_flag(()).many()` and OsString positionals
+pub fn run_probe(spec: &str, args: &[OsString]) -> Option<String> {
+    use bpaf::*;
+    let mut it = spec.split(':');
+    if it.next()? != "probe" {
+        return None;
+    }
+    let kind = it.next()?;
+    let hex = it.next()?;
+    let bytes: Vec<u8> = (0..hex.len() / 2).map(|i| u8::from_str_radix(&hex[2 * i..2 * i + 2], 16).unwrap()).collect();
+    let name: &'static str = Box::leak(String::from_utf8(bytes).ok()?.into_boxed_str());
+    let named = || match kind {
+        "short" => short(name.chars().next().unwrap()),
+        _ => long(name),
+    };
+    let vals = named().argument::<OsString>("V").many();
+    let xs = positional::<OsString>("XS").many();
+    let with_val = construct!(vals, xs).to_options();
+    let flags = named().req_flag(()).many().map(|v| v.len());
+    let ys = positional::<OsString>("YS").many();
+    let as_flag = construct!(flags, ys).to_options();
+    Some(format!("{}\t{}", show(with_val.run_inner(args)), show(as_flag.run_inner(args))))
+}
+
+corpus!(g1, g2, g3, p1, p2, p3, p4, p5, c1, c2, c3, v1, v2, v3, o1, o2, a1, a2, a3, e1, j1, k1, k2, h1, h2, kc, k3, k4, c4, g4, o3, a4, pt);
